@@ -24,6 +24,20 @@ const PARALLEL_TOLERANCE: f64 = 1e-12;
 /// The distance beyond the ends of a segment, as a fraction of its length, which is still
 /// considered part of the segment.
 const END_TOLERANCE: f64 = 1e-10;
+/// The relative value of the cross product below which the cross products are evaluated without
+/// the rounding of the individual products.
+const ILL_CONDITIONED: f64 = 1e-4;
+
+/// The value of `a * b - c * d` without cancellation of the rounding errors of the two products
+///
+/// This is Kahan's algorithm, the error of the result is within a few units in the last place
+/// however close the two products are.
+fn difference_of_products(a: f64, b: f64, c: f64, d: f64) -> f64 {
+    let cd = c * d;
+    let error = (-c).mul_add(d, cd);
+    let difference = a.mul_add(b, -cd);
+    difference + error
+}
 
 impl Intersect for Line2 {
     /// Determine whether two line segments intersect
@@ -48,10 +62,27 @@ impl Intersect for Line2 {
             return false;
         }
 
-        let ua_t = other.dx() * (self.start.y - other.start.y)
-            - other.dy() * (self.start.x - other.start.x);
-        let ub_t =
-            self.dx() * (self.start.y - other.start.y) - self.dy() * (self.start.x - other.start.x);
+        let (x, y) = (
+            self.start.x - other.start.x,
+            self.start.y - other.start.y,
+        );
+        // For segments which are close to parallel and in line each of these is the difference of
+        // two nearly equal products, so the rounding of the products decides where the crossing
+        // point is found. The two positions have to describe the same point, otherwise segments
+        // which follow each other along a line are found to cross in the gap between them.
+        let (u_b, ua_t, ub_t) = if u_b.abs() <= ILL_CONDITIONED * lengths {
+            (
+                difference_of_products(other.dy(), self.dx(), other.dx(), self.dy()),
+                difference_of_products(other.dx(), y, other.dy(), x),
+                difference_of_products(self.dx(), y, self.dy(), x),
+            )
+        } else {
+            (
+                u_b,
+                other.dx() * y - other.dy() * x,
+                self.dx() * y - self.dy() * x,
+            )
+        };
 
         let ua = ua_t / u_b;
         let ub = ub_t / u_b;
